@@ -1,6 +1,7 @@
 import T4V.Proofs.Macro
 import T4V.Proofs.RealOK
 import T4V.Proofs.Transform
+import T4V.Proofs.Rot
 /-!
 # Property C03 — macrobodies: interior, exterior and numbered facets
 
@@ -8,8 +9,8 @@ Model: `T4V.Model.Macro` (`MacroBodies.py`: body ↦ facets `(mnemonic, paramete
 like an ordinary card, `SurfaceCollection.join`).  Spec: `bodyFacets` (`T4V.Spec.MCNP`): MCNP's facets in
 MCNP's numbering as outward implicit functions.  `BodyOK coll gs`: the k-th emitted signed surface is the
 k-th facet (same zero set, outward side positive).  Proved for RPP, SPH, BOX (either handedness), RCC,
-RHP/HEX with 15 entries, WED and REC with 12 entries, any orientation; REC with 10 entries, ELL, TRC, ARB and
-the 9-entry RHP are checked by the spec monitor and the `macromodel` correspondence only.
+RHP/HEX with 9 and 15 entries, WED, REC with 10 and 12 entries, TRC and ELL in both forms, any orientation; ARB
+is checked by the spec monitor and the `macromodel` correspondence only.
 -/
 set_option linter.unusedSectionVars false
 set_option linter.unusedSimpArgs false
@@ -228,10 +229,517 @@ theorem rec12_ok (ok : TranscOK α) (toNat : α → Nat) (vx vy vz hx hy hz ax a
     field_simp
     ring
 
+theorem renorm_some' (ok : TranscOK α) (v : V3 α) (n : α) (h : 0 < v.dot v) :
+    renorm? v n = some (V3.smul (n / Transc.sqrt (v.dot v)) v) := by
+  have := (ok.sqrt_pos _ h).ne'
+  simp [renorm?, this]
+
+/-- **REC with ten entries** (base, height, one semi-axis vector, the length of the other): the second axis is
+`h × a` rescaled -/
+theorem rec10_ok (ok : TranscOK α) (toNat : α → Nat) (vx vy vz hx hy hz ax ay az bl : α)
+    (ha : 0 < (⟨ax, ay, az⟩ : V3 α).dot ⟨ax, ay, az⟩)
+    (hh : 0 < (⟨hx, hy, hz⟩ : V3 α).dot ⟨hx, hy, hz⟩)
+    (hc : 0 < ((⟨hx, hy, hz⟩ : V3 α).cross ⟨ax, ay, az⟩).dot ((⟨hx, hy, hz⟩ : V3 α).cross ⟨ax, ay, az⟩))
+    (hbl : bl ≠ 0) :
+    ∃ coll gs, convertMacro (0:α) 0 "rec" [vx, vy, vz, hx, hy, hz, ax, ay, az, bl] = some coll ∧
+      bodyFacets "rec" [vx, vy, vz, hx, hy, hz, ax, ay, az, bl] toNat = some gs ∧ BodyOK coll gs := by
+  generalize hv : (⟨vx, vy, vz⟩ : V3 α) = v
+  generalize hhh : (⟨hx, hy, hz⟩ : V3 α) = h at hh hc
+  generalize haa : (⟨ax, ay, az⟩ : V3 α) = a at ha hc
+  generalize hcc : h.cross a = c at hc
+  obtain ⟨t1, t2, h1, h2, f1, f2⟩ := end_planes ok h v hh
+  have hsa := ok.sqrt_pos _ ha; have hsa2 := ok.sqrt_sq _ ha.le
+  have hsc := ok.sqrt_pos _ hc; have hsc2 := ok.sqrt_sq _ hc.le
+  generalize hbb : V3.smul (bl / Transc.sqrt (c.dot c)) c = b
+  have hbv : b.dot b = bl * bl := by
+    rw [← hbb]
+    have : (V3.smul (bl / Transc.sqrt (c.dot c)) c).dot (V3.smul (bl / Transc.sqrt (c.dot c)) c) =
+        (bl / Transc.sqrt (c.dot c)) * (bl / Transc.sqrt (c.dot c)) * c.dot c := by
+      simp only [V3.dot, V3.smul]; ring
+    rw [this]
+    have hs0 := hsc.ne'
+    generalize Transc.sqrt (c.dot c) = s at hsc hsc2 hs0
+    rw [← hsc2]; field_simp
+  have hb : 0 < b.dot b := by rw [hbv]; exact mul_self_pos.mpr hbl
+  have hsb := ok.sqrt_pos _ hb; have hsb2 := ok.sqrt_sq _ hb.le
+  obtain ⟨q', hq, -⟩ := quad_transport (1 / a.dot a) (1 / (bl * bl)) 0 0 0 0 0 0 0 (-1)
+    ⟨v, ⟨V3.smul (1 / Transc.sqrt (a.dot a)) a, V3.smul (1 / Transc.sqrt (b.dot b)) b,
+      V3.smul (1 / Transc.sqrt (h.dot h)) h⟩⟩ ⟨0, 0, 0⟩
+  have hconv : convertMacro (0:α) 0 "rec" [vx, vy, vz, hx, hy, hz, ax, ay, az, bl] =
+      ((convertCard (0:α) 0 "gq" q').map fun c => c.map fun (t, s) => (t, s * 1)).bind fun c1 =>
+        some (c1 ++ [(t1, 1)] ++ [(t2, -1)]) := by
+    have hq2 := hq
+    simp only [one_div, mul_inv] at hq2
+    simp [convertMacro, macroParts, hv, hhh, haa, hcc, hbb, inv_some _ ha.ne', inv_some _ (mul_self_pos.mpr hbl).ne',
+      renorm_some ok _ ha, renorm_some ok _ hb, renorm_some ok _ hh, renorm_some' ok _ bl hc, quadInFrame, hq2, h1, h2]
+    cases convertCard (0:α) 0 "gq" q' <;> simp
+  have hqt := fun p => quad_transport (1 / a.dot a) (1 / (bl * bl)) 0 0 0 0 0 0 0 (-1)
+    ⟨v, ⟨V3.smul (1 / Transc.sqrt (a.dot a)) a, V3.smul (1 / Transc.sqrt (b.dot b)) b,
+      V3.smul (1 / Transc.sqrt (h.dot h)) h⟩⟩ p
+  simp only [transformQuad] at hq hqt
+  cases hq
+  obtain ⟨t, ht, hf⟩ := gq_part (α := α) _ _ _ _ _ _ _ _ _ _
+  rw [ht] at hconv
+  refine ⟨[(t, 1), (t1, 1), (t2, -1)],
+    [fun p => let d := p.sub v; sq (d.dot a) / sq a.norm2 + sq (d.dot c) / (c.norm2 * sq bl) - 1, planeOut h (v.add h),
+     planeOut h.neg v], by rw [hconv]; simp, ?_, ?_⟩
+  · rw [← hv, ← hcc, ← hhh, ← haa]; rfl
+  · refine .cons (Or.inl ⟨rfl, 1, one_pos, fun p => ?_⟩) (.cons f1 (.cons f2 .nil))
+    obtain ⟨q'', hq'', he⟩ := hqt p
+    cases hq''
+    rw [hf p, he, one_mul]
+    have hsh := ok.sqrt_pos _ hh
+    rw [hbv] at *
+    subst hbb
+    simp only [V3.norm2] at *
+    generalize a.dot a = na at *
+    generalize c.dot c = nc at *
+    generalize h.dot h = nh at *
+    generalize Transc.sqrt na = sa at *
+    generalize Transc.sqrt nc = sc at *
+    generalize Transc.sqrt (bl * bl) = sb at *
+    generalize Transc.sqrt nh = sh at *
+    simp only [evalQuadric, Motion.toAux, M3.mulVec, V3.dot, V3.smul, V3.sub, sq]
+    have hsa0 := hsa.ne'; have hsb0 := hsb.ne'; have hsh0 := hsh.ne'; have hsc0 := hsc.ne'
+    have ha0 := ha.ne'; have hc0 := hc.ne'
+    congr 1
+    subst hsa2 hsc2
+    rw [show (1 / (bl * bl) : α) = 1 / (sb * sb) by rw [hsb2]]
+    have hb2 : bl * bl = sb * sb := hsb2.symm
+    field_simp
+    linear_combination (sa ^ 4 * ((p.x - v.x) * c.x + (p.y - v.y) * c.y + (p.z - v.z) * c.z) ^ 2 * sh ^ 2 * (bl ^ 2 + sb ^ 2)) * hb2
+/-- non-vacuity over ℝ: REC with ten entries, tilted axis -/
+example : ∃ coll gs, convertMacro (0:ℝ) 0 "rec" [1, 2, 3, 0, 3, 4, 2, 0, 0, 1] = some coll ∧
+    bodyFacets "rec" [1, 2, 3, 0, 3, 4, 2, 0, 0, 1] (fun _ => 0) = some gs ∧ BodyOK coll gs :=
+  rec10_ok transcOK_real _ 1 2 3 0 3 4 2 0 0 1 (by norm_num [V3.dot]) (by norm_num [V3.dot])
+    (by norm_num [V3.dot, V3.cross]) (by norm_num)
+
+/-- a two-sheet cone card in generic form (`k`: apex, tangent of the half-angle, unit axis): all four branches of
+`convert_cone` -/
+theorem cone_general_same (ok : TranscOK α) (apex u : V3 α) (tanA : α) (hu : u.dot u = 1) :
+    ∃ t, convertCard (0:α) 0 "k" [apex.x, apex.y, apex.z, tanA, u.x, u.y, u.z] = some [(t, 1)] ∧
+      Same t fun p => (p.sub apex).norm2 - sq ((p.sub apex).dot u) - sq tanA * sq ((p.sub apex).dot u) := by
+  have hth := theta_back ok tanA
+  have hcad : cadOf (0:α) 0 "k" [apex.x, apex.y, apex.z, tanA, u.x, u.y, u.z] =
+      some (mkCone apex.x apex.y apex.z tanA u.x u.y u.z none) := rfl
+  simp only [convertCard, hcad, Option.bind_some, convertSurf, mkCone, convertCone]
+  simp only [beq_iff_eq, Bool.and_eq_true, mul_zero, add_zero]
+  unfold deg180 at hth
+  split_ifs with h1 h2 h3
+  · obtain ⟨hx, hy⟩ := h1
+    have hz : u.z * u.z = 1 := by simpa [V3.dot, hx, hy] using hu
+    refine ⟨_, rfl, 1, one_pos, fun p => ?_⟩
+    simp only [TSurf.f, TSurf.fLocal, deg180, hth, V3.norm2, V3.dot, V3.sub, sq, hx, hy, one_mul]
+    congr 1
+    linear_combination ((p.z - apex.z) * (p.z - apex.z) * (1 + tanA * tanA)) * hz
+  · obtain ⟨hy, hz⟩ := h2
+    have hx : u.x * u.x = 1 := by simpa [V3.dot, hy, hz] using hu
+    refine ⟨_, rfl, 1, one_pos, fun p => ?_⟩
+    simp only [TSurf.f, TSurf.fLocal, deg180, hth, V3.norm2, V3.dot, V3.sub, sq, hy, hz, one_mul]
+    congr 1
+    linear_combination ((p.x - apex.x) * (p.x - apex.x) * (1 + tanA * tanA)) * hx
+  · obtain ⟨hz, hx⟩ := h3
+    have hy : u.y * u.y = 1 := by simpa [V3.dot, hz, hx] using hu
+    refine ⟨_, rfl, 1, one_pos, fun p => ?_⟩
+    simp only [TSurf.f, TSurf.fLocal, deg180, hth, V3.norm2, V3.dot, V3.sub, sq, hz, hx, one_mul]
+    congr 1
+    linear_combination ((p.y - apex.y) * (p.y - apex.y) * (1 + tanA * tanA)) * hy
+  · refine ⟨_, rfl, 1, one_pos, fun p => ?_⟩
+    simp only [TSurf.f, TSurf.fLocal, deg180, hth, perp2, V3.norm2, V3.dot, V3.sub, sq, one_mul] at hu ⊢
+    congr 1
+    linear_combination ((p.x - apex.x) * (p.x - apex.x) + (p.y - apex.y) * (p.y - apex.y) + (p.z - apex.z) * (p.z - apex.z)) * hu
+
+theorem sq_fabs' (t : α) : sq (fabs t) = sq t := by
+  unfold fabs sq; split <;> ring
+
+set_option maxRecDepth 8000 in
+/-- **TRC**: truncated cone with either radius larger, any axis -/
+theorem trc_ok (ok : TranscOK α) (toNat : α → Nat) (vx vy vz hx hy hz r0 r1 : α)
+    (hh : 0 < (⟨hx, hy, hz⟩ : V3 α).dot ⟨hx, hy, hz⟩) (hr : r0 - r1 ≠ 0) :
+    ∃ coll gs, convertMacro (0:α) 0 "trc" [vx, vy, vz, hx, hy, hz, r0, r1] = some coll ∧
+      bodyFacets "trc" [vx, vy, vz, hx, hy, hz, r0, r1] toNat = some gs ∧ BodyOK coll gs := by
+  generalize hv : (⟨vx, vy, vz⟩ : V3 α) = v
+  generalize hhh : (⟨hx, hy, hz⟩ : V3 α) = h at hh
+  obtain ⟨t1, t2, h1, h2, f1, f2⟩ := end_planes ok h v hh
+  have hs := ok.sqrt_pos _ hh
+  have hs2 := ok.sqrt_sq _ hh.le
+  have hu : (V3.smul (1 / Transc.sqrt (h.dot h)) h).dot (V3.smul (1 / Transc.sqrt (h.dot h)) h) = 1 := by
+    have hs0 := hs.ne'
+    have : (V3.smul (1 / Transc.sqrt (h.dot h)) h).dot (V3.smul (1 / Transc.sqrt (h.dot h)) h) =
+        (1 / Transc.sqrt (h.dot h)) * (1 / Transc.sqrt (h.dot h)) * h.dot h := by
+      simp only [V3.dot, V3.smul]; ring
+    rw [this]
+    generalize Transc.sqrt (h.dot h) = s at hs hs2 hs0
+    rw [← hs2]; field_simp
+  obtain ⟨t, ht, hsame⟩ := cone_general_same ok (v.add (V3.smul (r0 / (r0 - r1)) h))
+    (V3.smul (1 / Transc.sqrt (h.dot h)) h) (fabs (r1 - r0) / Transc.sqrt (h.dot h)) hu
+  refine ⟨[(t, 1), (t1, 1), (t2, -1)],
+    [fun p => let d := p.sub v; let s := d.dot h / h.norm2; let rad := r0 + s * (r1 - r0)
+              (d.norm2 - sq (d.dot h) / h.norm2) - sq rad, planeOut h (v.add h), planeOut h.neg v], ?_, ?_, ?_⟩
+  · have hne : ((r0 - r1 == 0) || (Transc.sqrt (h.dot h) == 0)) = false := by simp [hr, hs.ne']
+    have hparts : macroParts "trc" [vx, vy, vz, hx, hy, hz, r0, r1] =
+        some [("k", [(v.add (V3.smul (r0 / (r0 - r1)) h)).x, (v.add (V3.smul (r0 / (r0 - r1)) h)).y,
+                     (v.add (V3.smul (r0 / (r0 - r1)) h)).z, fabs (r1 - r0) / Transc.sqrt (h.dot h),
+                     (V3.smul (1 / Transc.sqrt (h.dot h)) h).x, (V3.smul (1 / Transc.sqrt (h.dot h)) h).y,
+                     (V3.smul (1 / Transc.sqrt (h.dot h)) h).z], 1),
+              ("p", planeNP h (v.add h), 1), ("p", planeNP h v, -1)] := by
+      simp only [macroParts, hv, hhh, V3.norm2, hne, Bool.false_eq_true, if_false]
+    have hmn : (("trc" : String) == "arb") = false := by decide
+    simp only [convertMacro, hmn, Bool.false_eq_true, if_false, hparts, Option.bind_eq_bind, Option.bind_some,
+      List.mapM_cons, List.mapM_nil, ht, h1, h2, Option.map_some, Option.pure_def, List.map_cons, List.map_nil,
+      List.flatten_cons, List.flatten_nil, List.cons_append, List.nil_append]
+    simp
+  · rw [← hv, ← hhh]; rfl
+  · refine .cons (Or.inl ⟨rfl, Same.congr hsame fun p => ?_⟩) (.cons f1 (.cons f2 .nil))
+    simp only [V3.norm2] at *
+    have hnh : h.x * h.x + h.y * h.y + h.z * h.z = h.dot h := rfl
+    generalize h.dot h = nh at *
+    generalize Transc.sqrt nh = sh at *
+    have hs0 := hs.ne'
+    simp only [V3.dot, V3.smul, V3.sub, V3.add]
+    have hfab : ∀ x y : α, sq (fabs x / y) = sq x / sq y := by
+      intro x y; rw [show sq (fabs x / y) = sq (fabs x) / sq y by simp only [sq]; ring, sq_fabs']
+    rw [hfab]
+    simp only [sq]
+    subst hs2
+    have e3 : r0 + ((p.x - v.x) * h.x + (p.y - v.y) * h.y + (p.z - v.z) * h.z) / (sh * sh) * (r1 - r0) =
+        (r1 - r0) * (((p.x - v.x) * h.x + (p.y - v.y) * h.y + (p.z - v.z) * h.z) - r0 / (r0 - r1) * (sh * sh)) / (sh * sh) := by
+      field_simp; ring
+    rw [e3]
+    generalize r0 / (r0 - r1) = c
+    have e1 : (p.x - (v.x + c * h.x)) * (1 / sh * h.x) + (p.y - (v.y + c * h.y)) * (1 / sh * h.y) +
+        (p.z - (v.z + c * h.z)) * (1 / sh * h.z) =
+        (((p.x - v.x) * h.x + (p.y - v.y) * h.y + (p.z - v.z) * h.z) - c * (sh * sh)) / sh := by
+      rw [← hnh]; field_simp; ring
+    have e2 : (p.x - (v.x + c * h.x)) * (p.x - (v.x + c * h.x)) + (p.y - (v.y + c * h.y)) * (p.y - (v.y + c * h.y)) +
+        (p.z - (v.z + c * h.z)) * (p.z - (v.z + c * h.z)) =
+        ((p.x - v.x) * (p.x - v.x) + (p.y - v.y) * (p.y - v.y) + (p.z - v.z) * (p.z - v.z))
+          - 2 * c * ((p.x - v.x) * h.x + (p.y - v.y) * h.y + (p.z - v.z) * h.z) + c * c * (sh * sh) := by
+      rw [← hnh]; ring
+    rw [e1, e2]
+    generalize (p.x - v.x) * h.x + (p.y - v.y) * h.y + (p.z - v.z) * h.z = D
+    generalize (p.x - v.x) * (p.x - v.x) + (p.y - v.y) * (p.y - v.y) + (p.z - v.z) * (p.z - v.z) = N
+    field_simp
+    ring
+/-- non-vacuity over ℝ: a slanted truncated cone that narrows -/
+example : ∃ coll gs, convertMacro (0:ℝ) 0 "trc" [0, 0, 0, 1, 2, 2, 3, 1] = some coll ∧
+    bodyFacets "trc" [0, 0, 0, 1, 2, 2, 3, 1] (fun _ => 0) = some gs ∧ BodyOK coll gs :=
+  trc_ok transcOK_real _ 0 0 0 1 2 2 3 1 (by norm_num [V3.dot]) (by norm_num)
+
 /-- non-vacuity over ℝ: a left-handed box -/
 example : ∃ coll gs, convertMacro (0:ℝ) 0 "box" [0, 0, 0, 1, 0, 0, 0, 0, 2, 0, 3, 0] = some coll ∧
     bodyFacets "box" [0, 0, 0, 1, 0, 0, 0, 0, 2, 0, 3, 0] (fun _ => 0) = some gs ∧ BodyOK coll gs :=
   box_ok transcOK_real _ 0 0 0 1 0 0 0 0 2 0 3 0 (by norm_num [V3.dot]) (by norm_num [V3.dot]) (by norm_num [V3.dot])
     (by norm_num [V3.dot]) (by norm_num [V3.dot]) (by norm_num [V3.dot]) (by norm_num [V3.dot, V3.cross])
 
+end T4V.C03
+
+/-! ### ELL: spheroid of revolution through `transformation_quad`, in the frame chosen by the converter -/
+
+namespace T4V.C03
+open T4V T4V.Surf T4V.Macro T4V.Tr
+variable {α : Type} [Field α] [LinearOrder α] [IsStrictOrderedRing α] [Transc α]
+
+/-- an orthonormal frame resolves the square of a vector -/
+theorem frame_resolves {b : M3 α} (h : Rot b) (d : V3 α) :
+    sq (b.r1.dot d) + sq (b.r2.dot d) + sq (b.r3.dot d) = d.dot d := by
+  have c11 := h.c11; have c22 := h.c22; have c33 := h.c33; have c12 := h.c12; have c13 := h.c13; have c23 := h.c23
+  simp only [V3.dot, sq] at *
+  linear_combination (d.x * d.x) * c11 + (d.y * d.y) * c22 + (d.z * d.z) * c33 + (2 * d.x * d.y) * c12 +
+    (2 * d.x * d.z) * c13 + (2 * d.y * d.z) * c23
+
+/-- spheroid of revolution with centre `c`, major semi-axis vector `va` and squared minor radius `min2`, in a
+frame whose first axis is along `va` and whose second axis is any unit vector orthogonal to it -/
+theorem ell_core (ok : TranscOK α) (c va ub : V3 α) (min2 : α) (hva : 0 < va.dot va) (hmin : min2 ≠ 0)
+    (hub : ub.dot ub = 1) (hab : (V3.smul (1 / Transc.sqrt (va.dot va)) va).dot ub = 0) :
+    ∃ q t, quadInFrame [1 / va.dot va, 1 / min2, 1 / min2, 0, 0, 0, 0, 0, 0, -1] c
+        (V3.smul (1 / Transc.sqrt (va.dot va)) va) ub ((V3.smul (1 / Transc.sqrt (va.dot va)) va).cross ub) = some q ∧
+      convertCard (0:α) 0 "gq" q = some [(t, 1)] ∧
+      ∀ p, t.f p = some (let d := p.sub c; let par2 := sq (d.dot va) / va.norm2
+                         par2 / va.norm2 + (d.norm2 - par2) / min2 - 1) := by
+  have hs := ok.sqrt_pos _ hva
+  have hs2 := ok.sqrt_sq _ hva.le
+  generalize hua : V3.smul (1 / Transc.sqrt (va.dot va)) va = ua at hab
+  have huu : ua.dot ua = 1 := by
+    rw [← hua]
+    have : (V3.smul (1 / Transc.sqrt (va.dot va)) va).dot (V3.smul (1 / Transc.sqrt (va.dot va)) va) =
+        (1 / Transc.sqrt (va.dot va)) * (1 / Transc.sqrt (va.dot va)) * va.dot va := by
+      simp only [V3.dot, V3.smul]; ring
+    rw [this]
+    have hs0 := hs.ne'
+    generalize Transc.sqrt (va.dot va) = s at hs hs2 hs0
+    rw [← hs2]; field_simp
+  have hR := (cross_completion ua ub huu hub hab).1.1
+  have hqt := fun p => quad_transport (1 / va.dot va) (1 / min2) (1 / min2) 0 0 0 0 0 0 (-1)
+    ⟨c, ⟨ua, ub, ua.cross ub⟩⟩ p
+  simp only [transformQuad] at hqt
+  obtain ⟨t, ht, hf⟩ := gq_part (α := α) _ _ _ _ _ _ _ _ _ _
+  refine ⟨_, t, rfl, ht, fun p => ?_⟩
+  obtain ⟨q'', hq'', he⟩ := hqt p
+  cases hq''
+  rw [hf p, he]
+  have hres := frame_resolves hR (p.sub c)
+  have hpar : sq (ua.dot (p.sub c)) = sq ((p.sub c).dot va) / va.dot va := by
+    rw [← hua]
+    have : (V3.smul (1 / Transc.sqrt (va.dot va)) va).dot (p.sub c) =
+        (1 / Transc.sqrt (va.dot va)) * (p.sub c).dot va := by simp only [V3.dot, V3.smul]; ring
+    rw [this]
+    have hs0 := hs.ne'
+    generalize Transc.sqrt (va.dot va) = s at hs hs2 hs0
+    rw [← hs2]; simp only [sq]; field_simp
+  simp only [evalQuadric, Motion.toAux, M3.mulVec, V3.norm2] at *
+  congr 1
+  generalize (ua.cross ub).dot (p.sub c) = w at *
+  generalize ub.dot (p.sub c) = y at *
+  generalize ua.dot (p.sub c) = x at *
+  generalize (p.sub c).dot (p.sub c) = dd at *
+  generalize (p.sub c).dot va = dv at *
+  have hva0 := hva.ne'
+  simp only [sq] at *
+  have hyw : y * y + w * w = dd - dv * dv / va.dot va := by rw [← hpar, ← hres]; ring
+  rw [hpar] at *
+  generalize va.dot va = n at *
+  field_simp
+  field_simp at hyw
+  linear_combination (n) * hyw
+end T4V.C03
+namespace T4V.C03
+open T4V T4V.Surf T4V.Macro T4V.Tr
+variable {α : Type} [Field α] [LinearOrder α] [IsStrictOrderedRing α] [Transc α]
+
+theorem fabs_eq_abs (t : α) : fabs t = |t| := by
+  unfold fabs; split
+  · rw [abs_of_neg ‹_›]
+  · rw [abs_of_nonneg (not_lt.mp ‹_›)]
+
+theorem unit_dot_self (ok : TranscOK α) (w : V3 α) (hw : 0 < w.dot w) :
+    (V3.smul (1 / Transc.sqrt (w.dot w)) w).dot (V3.smul (1 / Transc.sqrt (w.dot w)) w) = 1 := by
+  have hs := ok.sqrt_pos _ hw
+  have hs2 := ok.sqrt_sq _ hw.le
+  have : (V3.smul (1 / Transc.sqrt (w.dot w)) w).dot (V3.smul (1 / Transc.sqrt (w.dot w)) w) =
+      (1 / Transc.sqrt (w.dot w)) * (1 / Transc.sqrt (w.dot w)) * w.dot w := by
+    simp only [V3.dot, V3.smul]; ring
+  rw [this]
+  have hs0 := hs.ne'
+  generalize Transc.sqrt (w.dot w) = s at hs hs2 hs0
+  rw [← hs2]; field_simp
+
+/-- a coordinate of a unit vector whose absolute value is not 1 leaves room: `1 - t² > 0` -/
+theorem room_of_tol (tol t r : α) (htol : 0 ≤ tol) (hr : 0 ≤ r) (hu : t * t + r = 1)
+    (h : tol < fabs (1 - fabs t)) : 0 < 1 - t * t := by
+  rw [fabs_eq_abs, fabs_eq_abs] at h
+  have h1 : t * t ≤ 1 := by linarith
+  rcases (lt_or_eq_of_le h1) with h2 | h2
+  · linarith
+  · exfalso
+    have : |t| = 1 := by
+      have : |t| * |t| = 1 := by rw [abs_mul_abs_self]; exact h2
+      have h0 := abs_nonneg t
+      nlinarith
+    rw [this] at h
+    simp at h
+    linarith
+
+/-- the second axis chosen by the converter: the first coordinate axis that is not (within 1e-3) along `ua`,
+made orthogonal to `ua` and normalised -/
+theorem pick_ok (ok : TranscOK α) (ua e : V3 α) (comp : α) (huu : ua.dot ua = 1) (hcomp : e.dot ua = comp)
+    (hroom : 0 < e.dot e - comp * comp) :
+    ∃ ub, renorm? (e.sub (V3.smul comp ua)) = some ub ∧ ub.dot ub = 1 ∧ ua.dot ub = 0 := by
+  have hw : 0 < (e.sub (V3.smul comp ua)).dot (e.sub (V3.smul comp ua)) := by
+    have : (e.sub (V3.smul comp ua)).dot (e.sub (V3.smul comp ua)) = e.dot e - comp * comp := by
+      simp only [V3.dot, V3.sub, V3.smul] at *
+      linear_combination (comp * comp) * huu - (2 * comp) * hcomp
+    rw [this]; exact hroom
+  refine ⟨_, renorm_some ok _ hw, unit_dot_self ok _ hw, ?_⟩
+  have : ua.dot (V3.smul (1 / Transc.sqrt ((e.sub (V3.smul comp ua)).dot (e.sub (V3.smul comp ua))))
+      (e.sub (V3.smul comp ua))) =
+      (1 / Transc.sqrt ((e.sub (V3.smul comp ua)).dot (e.sub (V3.smul comp ua)))) * (e.dot ua - comp * ua.dot ua) := by
+    simp only [V3.dot, V3.sub, V3.smul]; ring
+  rw [this, huu, hcomp]; ring
+end T4V.C03
+namespace T4V.C03
+open T4V T4V.Surf T4V.Macro T4V.Tr
+variable {α : Type} [Field α] [LinearOrder α] [IsStrictOrderedRing α] [Transc α]
+
+theorem second_axis (ok : TranscOK α) (ua : V3 α) (tol : α) (h0 : 0 ≤ tol) (h1 : tol < 1) (huu : ua.dot ua = 1) :
+    ∃ ub, (if tol < fabs (1 - fabs ua.x) then renorm? ((⟨1, 0, 0⟩ : V3 α).sub (V3.smul ua.x ua))
+           else if tol < fabs (1 - fabs ua.y) then renorm? ((⟨0, 1, 0⟩ : V3 α).sub (V3.smul ua.y ua))
+           else renorm? ((⟨0, 0, 1⟩ : V3 α).sub (V3.smul ua.z ua))) = some ub ∧ ub.dot ub = 1 ∧ ua.dot ub = 0 := by
+  have hu : ua.x * ua.x + ua.y * ua.y + ua.z * ua.z = 1 := huu
+  split_ifs with hx hy
+  · exact pick_ok ok ua _ ua.x huu (by simp [V3.dot]) (by
+      have := room_of_tol tol ua.x (ua.y * ua.y + ua.z * ua.z) h0
+        (add_nonneg (mul_self_nonneg _) (mul_self_nonneg _)) (by linarith) hx
+      simpa [V3.dot] using this)
+  · exact pick_ok ok ua _ ua.y huu (by simp [V3.dot]) (by
+      have := room_of_tol tol ua.y (ua.x * ua.x + ua.z * ua.z) h0
+        (add_nonneg (mul_self_nonneg _) (mul_self_nonneg _)) (by linarith) hy
+      simpa [V3.dot] using this)
+  · refine pick_ok ok ua _ ua.z huu (by simp [V3.dot]) ?_
+    rw [fabs_eq_abs, fabs_eq_abs] at hx
+    have hx' := not_lt.mp hx
+    have hax : 0 < |ua.x| := by
+      have := (abs_le.mp hx').2
+      linarith
+    have : 0 < ua.x * ua.x := by rw [← abs_mul_abs_self]; exact mul_pos hax hax
+    have hy2 := mul_self_nonneg ua.y
+    simp only [V3.dot]
+    linarith
+end T4V.C03
+namespace T4V.C03
+open T4V T4V.Surf T4V.Macro T4V.Tr
+variable {α : Type} [Field α] [LinearOrder α] [IsStrictOrderedRing α] [Transc α]
+
+theorem ell_neg_ok (ok : TranscOK α) (toNat : α → Nat) (cx cy cz ax ay az rm : α)
+    (ha : 0 < (⟨ax, ay, az⟩ : V3 α).dot ⟨ax, ay, az⟩) (hrm : rm < 0) :
+    ∃ coll gs, convertMacro (0:α) 0 "ell" [cx, cy, cz, ax, ay, az, rm] = some coll ∧
+      bodyFacets "ell" [cx, cy, cz, ax, ay, az, rm] toNat = some gs ∧ BodyOK coll gs := by
+  generalize hc : (⟨cx, cy, cz⟩ : V3 α) = c
+  generalize haa : (⟨ax, ay, az⟩ : V3 α) = va at ha
+  have hpos : ¬ (0:α) < rm := not_lt.mpr hrm.le
+  have huu := unit_dot_self ok va ha
+  obtain ⟨ub, hub, hub1, hub2⟩ := second_axis ok (V3.smul (1 / Transc.sqrt (va.dot va)) va)
+    (1 / (((1:α)+1+1+1+1) * (1+1) * (((1:α)+1+1+1+1) * (1+1)) * (((1:α)+1+1+1+1) * (1+1)))) (by positivity)
+    (by rw [div_lt_one (by positivity)]; norm_num) huu
+  have hmin : rm * rm ≠ 0 := (mul_self_pos.mpr hrm.ne).ne'
+  obtain ⟨q, t, hq, ht, hf⟩ := ell_core ok c va ub (rm * rm) ha hmin hub1 hub2
+  have hmn : (("ell" : String) == "arb") = false := by decide
+  have hconv : convertMacro (0:α) 0 "ell" [cx, cy, cz, ax, ay, az, rm] = some [(t, 1)] := by
+    simp only [convertMacro, hmn, Bool.false_eq_true, if_false, macroParts, hc, haa, if_neg hpos]
+    simp only [Option.bind_eq_bind, Option.bind_some, Option.pure_def, renorm_some ok _ ha]
+    split_ifs at hub ⊢ <;>
+      (simp only [hub, inv_some _ ha.ne', inv_some _ hmin, hq, ht, Option.bind_eq_bind, Option.bind_some,
+        List.mapM_cons, List.mapM_nil, Option.map_some, Option.pure_def, List.map_cons, List.map_nil,
+        List.flatten_cons, List.flatten_nil, List.cons_append, List.nil_append]; simp)
+  refine ⟨_, [fun p => let d := p.sub c; let par2 := sq (d.dot va) / va.norm2
+                       par2 / va.norm2 + (d.norm2 - par2) / sq rm - 1], hconv, ?_, ?_⟩
+  · rw [← hc, ← haa]
+    simp only [bodyFacets, if_neg hpos]
+  · exact .cons (Or.inl ⟨rfl, 1, one_pos, fun p => by rw [hf p, one_mul]; rfl⟩) .nil
+end T4V.C03
+namespace T4V.C03
+open T4V T4V.Surf T4V.Macro T4V.Tr
+variable {α : Type} [Field α] [LinearOrder α] [IsStrictOrderedRing α] [Transc α]
+
+theorem ell_pos_ok (ok : TranscOK α) (toNat : α → Nat) (a1 a2 a3 b1 b2 b3 rm : α) (hrm : 0 < rm)
+    (hrel : 0 < ((⟨a1, a2, a3⟩ : V3 α).sub (V3.smul (1 / two) ((⟨a1, a2, a3⟩ : V3 α).add ⟨b1, b2, b3⟩))).dot
+                ((⟨a1, a2, a3⟩ : V3 α).sub (V3.smul (1 / two) ((⟨a1, a2, a3⟩ : V3 α).add ⟨b1, b2, b3⟩))))
+    (hmin : rm * rm - (rm - Transc.sqrt (((⟨a1, a2, a3⟩ : V3 α).sub (V3.smul (1 / two) ((⟨a1, a2, a3⟩ : V3 α).add ⟨b1, b2, b3⟩))).dot
+                ((⟨a1, a2, a3⟩ : V3 α).sub (V3.smul (1 / two) ((⟨a1, a2, a3⟩ : V3 α).add ⟨b1, b2, b3⟩))))) *
+              (rm - Transc.sqrt (((⟨a1, a2, a3⟩ : V3 α).sub (V3.smul (1 / two) ((⟨a1, a2, a3⟩ : V3 α).add ⟨b1, b2, b3⟩))).dot
+                ((⟨a1, a2, a3⟩ : V3 α).sub (V3.smul (1 / two) ((⟨a1, a2, a3⟩ : V3 α).add ⟨b1, b2, b3⟩))))) ≠ 0) :
+    ∃ coll gs, convertMacro (0:α) 0 "ell" [a1, a2, a3, b1, b2, b3, rm] = some coll ∧
+      bodyFacets "ell" [a1, a2, a3, b1, b2, b3, rm] toNat = some gs ∧ BodyOK coll gs := by
+  generalize hf1 : (⟨a1, a2, a3⟩ : V3 α) = f1 at hrel hmin
+  generalize hf2 : (⟨b1, b2, b3⟩ : V3 α) = f2 at hrel hmin
+  generalize hcc : V3.smul (1 / two) (f1.add f2) = c at hrel hmin
+  generalize hrr : f1.sub c = rel at hrel hmin
+  have hs := ok.sqrt_pos _ hrel
+  have hs2 := ok.sqrt_sq _ hrel.le
+  generalize hvv : V3.smul (rm / Transc.sqrt (rel.dot rel)) rel = va
+  have hvd : va.dot va = rm * rm := by
+    rw [← hvv]
+    have : (V3.smul (rm / Transc.sqrt (rel.dot rel)) rel).dot (V3.smul (rm / Transc.sqrt (rel.dot rel)) rel) =
+        (rm / Transc.sqrt (rel.dot rel)) * (rm / Transc.sqrt (rel.dot rel)) * rel.dot rel := by
+      simp only [V3.dot, V3.smul]; ring
+    rw [this]
+    have hs0 := hs.ne'
+    generalize Transc.sqrt (rel.dot rel) = s at hs hs2 hs0
+    rw [← hs2]; field_simp
+  have ha : 0 < va.dot va := by rw [hvd]; exact mul_pos hrm hrm
+  have huu := unit_dot_self ok va ha
+  obtain ⟨ub, hub, hub1, hub2⟩ := second_axis ok (V3.smul (1 / Transc.sqrt (va.dot va)) va)
+    (1 / (((1:α)+1+1+1+1) * (1+1) * (((1:α)+1+1+1+1) * (1+1)) * (((1:α)+1+1+1+1) * (1+1)))) (by positivity)
+    (by rw [div_lt_one (by positivity)]; norm_num) huu
+  obtain ⟨q, t, hq, ht, hf⟩ := ell_core ok c va ub _ ha hmin hub1 hub2
+  have hmn : (("ell" : String) == "arb") = false := by decide
+  have hconv : convertMacro (0:α) 0 "ell" [a1, a2, a3, b1, b2, b3, rm] = some [(t, 1)] := by
+    simp only [convertMacro, hmn, Bool.false_eq_true, if_false, macroParts, hf1, hf2, hcc, hrr, if_pos hrm,
+      renorm_some' ok _ rm hrel, hvv, Option.map_some]
+    simp only [Option.bind_eq_bind, Option.bind_some, Option.pure_def, renorm_some ok _ ha]
+    split_ifs at hub ⊢ <;>
+      (simp only [hub, inv_some _ ha.ne', inv_some _ hmin, hq, ht, Option.bind_eq_bind, Option.bind_some,
+        List.mapM_cons, List.mapM_nil, Option.map_some, Option.pure_def, List.map_cons, List.map_nil,
+        List.flatten_cons, List.flatten_nil, List.cons_append, List.nil_append]; simp)
+  have hva : V3.smul rm (unit rel) = va := by
+    rw [← hvv]
+    apply V3.ext' <;> simp only [unit, V3.smul, V3.norm2] <;> ring
+  refine ⟨_, [fun p => let d := p.sub c; let par2 := sq (d.dot va) / va.norm2
+                       par2 / va.norm2 + (d.norm2 - par2) / (sq rm - sq (rm - Transc.sqrt rel.norm2)) - 1], hconv, ?_, ?_⟩
+  · rw [← hva, ← hrr, ← hcc, ← hf1, ← hf2]
+    simp only [bodyFacets, if_pos hrm]
+  · exact .cons (Or.inl ⟨rfl, 1, one_pos, fun p => by rw [hf p, one_mul]; rfl⟩) .nil
+end T4V.C03
+namespace T4V.C03
+open T4V T4V.Surf T4V.Macro T4V.Tr
+/-- non-vacuity over ℝ: centre / major-axis vector / minor radius, tilted -/
+example : ∃ coll gs, convertMacro (0:ℝ) 0 "ell" [1, 2, 3, 0, 3, 4, -2] = some coll ∧
+    bodyFacets "ell" [1, 2, 3, 0, 3, 4, -2] (fun _ => 0) = some gs ∧ BodyOK coll gs :=
+  ell_neg_ok transcOK_real _ 1 2 3 0 3 4 (-2) (by norm_num [V3.dot]) (by norm_num)
+
+/-- non-vacuity over ℝ: two foci and the major radius -/
+example : ∃ coll gs, convertMacro (0:ℝ) 0 "ell" [0, 0, 2, 0, 0, -2, 3] = some coll ∧
+    bodyFacets "ell" [0, 0, 2, 0, 0, -2, 3] (fun _ => 0) = some gs ∧ BodyOK coll gs := by
+  have hrel : ((⟨0, 0, 2⟩ : V3 ℝ).sub (V3.smul (1 / two) ((⟨0, 0, 2⟩ : V3 ℝ).add ⟨0, 0, -2⟩))).dot
+      ((⟨0, 0, 2⟩ : V3 ℝ).sub (V3.smul (1 / two) ((⟨0, 0, 2⟩ : V3 ℝ).add ⟨0, 0, -2⟩))) = 4 := by
+    norm_num [V3.dot, V3.sub, V3.smul, V3.add, two]
+  refine ell_pos_ok transcOK_real _ 0 0 2 0 0 (-2) 3 (by norm_num) (by rw [hrel]; norm_num) ?_
+  rw [hrel]
+  have h4 : Transc.sqrt (4:ℝ) = 2 := by
+    show Real.sqrt 4 = 2
+    rw [show (4:ℝ) = 2 * 2 by norm_num]; exact Real.sqrt_mul_self (by norm_num)
+  rw [h4]; norm_num
+end T4V.C03
+
+/-! ### RHP / HEX with nine entries: `rotate` -/
+
+namespace T4V.C03
+open T4V T4V.Surf T4V.Macro T4V.Tr
+variable {α : Type} [Field α] [LinearOrder α] [IsStrictOrderedRing α] [Transc α]
+
+/-- the converter's `rotate` is Rodrigues' formula -/
+theorem rotateV_eq (v k : V3 α) (angle : α) : rotateV v k angle = rotateAbout v k angle := by
+  apply V3.ext' <;> simp only [rotateV, rotateAbout, V3.add, V3.smul] <;> ring
+
+/-- a rotation about a unit axis keeps the length -/
+theorem rotate_norm (ok : TranscOK α) (v k : V3 α) (angle : α) (hk : k.dot k = 1) :
+    (rotateAbout v k angle).dot (rotateAbout v k angle) = v.dot v := by
+  have hcs := ok.cos_sin angle
+  simp only [rotateAbout, V3.add, V3.smul, V3.dot, V3.cross] at *
+  generalize Transc.cos angle = c at *
+  generalize Transc.sin angle = s at *
+  linear_combination (s * s * (v.x * v.x + v.y * v.y + v.z * v.z) +
+      (1 - c) * (1 - c) * ((k.x * v.x + k.y * v.y + k.z * v.z) * (k.x * v.x + k.y * v.y + k.z * v.z))) * hk +
+    ((v.x * v.x + v.y * v.y + v.z * v.z) -
+      (k.x * v.x + k.y * v.y + k.z * v.z) * (k.x * v.x + k.y * v.y + k.z * v.z)) * hcs
+
+/-- **RHP/HEX with nine entries**: the second and third pairs of facets are the first pair turned by 60° and 120°
+about the axis -/
+theorem rhp9_ok (ok : TranscOK α) (toNat : α → Nat) (vx vy vz hx hy hz rx ry rz : α)
+    (hh : 0 < (⟨hx, hy, hz⟩ : V3 α).dot ⟨hx, hy, hz⟩) (hr : 0 < (⟨rx, ry, rz⟩ : V3 α).dot ⟨rx, ry, rz⟩) :
+    ∃ coll gs, convertMacro (0:α) 0 "rhp" [vx, vy, vz, hx, hy, hz, rx, ry, rz] = some coll ∧
+      bodyFacets "rhp" [vx, vy, vz, hx, hy, hz, rx, ry, rz] toNat = some gs ∧ BodyOK coll gs := by
+  generalize hv : (⟨vx, vy, vz⟩ : V3 α) = v
+  generalize hhh : (⟨hx, hy, hz⟩ : V3 α) = h at hh
+  generalize hrr : (⟨rx, ry, rz⟩ : V3 α) = r at hr
+  have huh : (unit h).dot (unit h) = 1 := unit_dot_self ok h hh
+  have hs : 0 < (rotateAbout r (unit h) (Transc.pi / (1 + 1 + 1))).dot (rotateAbout r (unit h) (Transc.pi / (1 + 1 + 1))) := by
+    rw [rotate_norm ok _ _ _ huh]; exact hr
+  have ht : 0 < (rotateAbout r (unit h) (two * (Transc.pi / (1 + 1 + 1)))).dot
+      (rotateAbout r (unit h) (two * (Transc.pi / (1 + 1 + 1)))) := by
+    rw [rotate_norm ok _ _ _ huh]; exact hr
+  obtain ⟨t1, t2, h1, h2, f1, f2⟩ := rhp_pair ok r v hr
+  obtain ⟨t3, t4, h3, h4, f3, f4⟩ := rhp_pair ok _ v hs
+  obtain ⟨t5, t6, h5, h6, f5, f6⟩ := rhp_pair ok _ v ht
+  obtain ⟨t7, t8, h7, h8, f7, f8⟩ := end_planes ok h v hh
+  refine ⟨_, _, ?_, by rw [← hv, ← hhh, ← hrr]; rfl,
+    .cons f1 (.cons f2 (.cons f3 (.cons f4 (.cons f5 (.cons f6 (.cons f7 (.cons f8 .nil)))))))⟩
+  have e2 : two * Transc.pi / (1 + 1 + 1) = two * (Transc.pi / (1 + 1 + 1) : α) := by ring
+  simp only [unit, V3.norm2, one_div] at h3 h4 h5 h6
+  simp [convertMacro, macroParts, hv, hhh, hrr, renorm_some ok _ hh, rotateV_eq, e2, h1, h2, h3, h4, h5, h6, h7, h8]
+
+/-- non-vacuity over ℝ: a nine-entry hexagonal prism along a tilted axis -/
+example : ∃ coll gs, convertMacro (0:ℝ) 0 "rhp" [1, 2, 3, 0, 3, 4, 2, 0, 0] = some coll ∧
+    bodyFacets "rhp" [1, 2, 3, 0, 3, 4, 2, 0, 0] (fun _ => 0) = some gs ∧ BodyOK coll gs :=
+  rhp9_ok transcOK_real _ 1 2 3 0 3 4 2 0 0 (by norm_num [V3.dot]) (by norm_num [V3.dot])
 end T4V.C03
